@@ -22,9 +22,11 @@ Conventions
   parameter, instantiated by an oracle column in the driver.
 * The target of `FromCtyValue` starts out as the zero value of its type (the
   harness always passes `new(T)`); fields the code does not touch keep it.
-* Set-typed values with two or more members are `unmodelled` when decoded
-  (iteration order of a set is C03's subject), capsule-typed non-null values
-  are `unmodelled` (their Go payload is opaque to the model).
+* Set-typed values are decoded in the iteration order of `set.Set.Values`, a
+  stable sort by `setRules.Less`: modelled for element types string, number and
+  bool; with two or more members of another element type (ordered by their hash
+  bytes, which the model does not have) the result is `unmodelled`.  Capsule-typed
+  non-null values are `unmodelled` (their Go payload is opaque to the model).
 -/
 import CtyModel.Marks
 import CtyModel.NumFloat
@@ -244,6 +246,22 @@ def mapVal (ks : List String) (ws : List Value) : Res Value :=
     | .panic w => .panic w
     | .unmodelled => .unmodelled
 
+/-- no key occurs twice -/
+def keysDistinct : List String → Bool
+  | [] => true
+  | k :: ks => !ks.contains k && keysDistinct ks
+
+/-- insertion of a key/value pair into parallel lists sorted by key -/
+def insertKV (k : String) (w : Value) : List String → List Value → List String × List Value
+  | x :: xs, y :: ys =>
+    if k < x then (k :: x :: xs, w :: y :: ys) else ((x :: (insertKV k w xs ys).1), (y :: (insertKV k w xs ys).2))
+  | _, _ => ([k], [w])
+
+/-- key/value pairs in ascending key order (how the harness prints a cty map) -/
+def sortKV : List String → List Value → List String × List Value
+  | k :: ks, w :: ws => insertKV k w (sortKV ks ws).1 (sortKV ks ws).2
+  | _, _ => ([], [])
+
 /-- `cty.ObjectVal`: the type is assembled from the *values'* types -/
 def objectVal (names : List String) (ws : List Value) : Value :=
   ⟨.object names (tysOf ws) (names.map fun _ => false), .smap names (payloads ws)⟩
@@ -389,7 +407,12 @@ def toCtyG (norm : String → String) (pass : Bool) : GoVal → Ty → Res Value
        if vs.isEmpty then .ok ⟨.map ety, .smap [] []⟩
        else
          (match combAll (toCtyL norm vs ety) with
-          | .ok ws => if ks.map norm != ks then .unmodelled else mapVal ks ws
+          | .ok ws =>
+            if ks.map norm != ks then
+              -- `cty.MapVal` normalises the keys; two Go keys with one normal form: Go map order decides
+              (if !keysDistinct (ks.map norm) then .unmodelled
+               else mapVal (sortKV (ks.map norm) ws).1 (sortKV (ks.map norm) ws).2)
+            else mapVal ks ws
           | .err c => .err c
           | .panic w => .panic w
           | .unmodelled => .unmodelled)
@@ -616,6 +639,41 @@ def assemble (names : List String) (gs : List GoVal) : List String → List GoTy
      | none => zeroVal T) :: assemble names gs tags tys
   | _, _ => []
 
+/-! ### iteration order of a set (`set.Set.Values`: stable sort by `setRules.Less`) -/
+
+/-- element types for which `setRules.Less` is a defined order on known, non-null members -/
+def isPrimTy : Ty → Bool
+  | .string | .number | .bool => true
+  | _ => false
+
+/-- `setRules.Less` for a primitive element type: nulls after non-nulls, unknowns after
+knowns, strings by bytes, numbers by value, `false` before `true` -/
+def setLess (ety : Ty) (p1 p2 : Payload) : Bool :=
+  if p2.isNull && !p1.isNull then true
+  else if p1.isNull then false
+  else if p1.isKnown && !p2.isKnown then true
+  else if !p1.isKnown then false
+  else
+    match ety, p1, p2 with
+    | .string, .s a, .s b => decide (a < b)
+    | .number, .n a, .n b => decide (Num.cmp a b < 0)
+    | .bool, .b a, .b b => !a && b
+    | _, _, _ => false
+
+/-- stable insertion: before the first member that is greater -/
+def insertSorted (ety : Ty) (x : Payload × Res GoVal) : List (Payload × Res GoVal) → List (Payload × Res GoVal)
+  | [] => [x]
+  | y :: ys => if setLess ety x.1 y.1 then x :: y :: ys else y :: insertSorted ety x ys
+
+def zipPR : List Payload → List (Res GoVal) → List (Payload × Res GoVal)
+  | c :: cs, r :: rs => (c, r) :: zipPR cs rs
+  | _, _ => []
+
+/-- the per-member results `rs` (parallel to the members `cs` as stored) in the order in
+which `ForEachElement` visits the members -/
+def setOrder (ety : Ty) (cs : List Payload) (rs : List (Res GoVal)) : List (Res GoVal) :=
+  ((zipPR cs rs).foldl (fun acc x => insertSorted ety x acc) []).map (·.2)
+
 mutual
 /-- `fromCtyValue(val, target)` where `val = Value{ty, p}` with the marks `ms`
 of the containers it was taken from still to be merged in (`pushMarks ms p`),
@@ -716,13 +774,13 @@ def fromCtyP (ms : List String) (ty : Ty) (p : Payload) (T : GoTy) : Res GoVal :
          (match T.base with
           | .slice E =>
             if !ms.isEmpty then .panic "marked"
-            else if cs.length ≥ 2 then .unmodelled
-            else mapRes (fun gs => wrapPtr T.depth (.slice gs)) (seqAll (fromCtyL ety cs E))
+            else if cs.length ≥ 2 && (!isPrimTy ety || Payload.containsMarkedL cs) then .unmodelled
+            else mapRes (fun gs => wrapPtr T.depth (.slice gs)) (seqAll (setOrder ety cs (fromCtyL ety cs E)))
           | .array n E =>
             if !ms.isEmpty then .panic "marked"
             else if cs.length ≠ n then .err "must be a set of length"
-            else if cs.length ≥ 2 then .unmodelled
-            else mapRes (fun gs => wrapPtr T.depth (.arr gs)) (seqAll (fromCtyL ety cs E))
+            else if cs.length ≥ 2 && (!isPrimTy ety || Payload.containsMarkedL cs) then .unmodelled
+            else mapRes (fun gs => wrapPtr T.depth (.arr gs)) (seqAll (setOrder ety cs (fromCtyL ety cs E)))
           | _ => .err "list or set value is required")
        | _ => .unmodelled)
     | .caps => .unmodelled
